@@ -1,6 +1,6 @@
 (* C11 -- Block handler survives hostile traffic: no panic, bounded buffers, clean errors. *)
 From CoapV Require Import Base Header Packet UintOpt BlockValue Encode Response Accessors BlockHandler
-  proofs.P01 proofs.P11.
+  proofs.P01 proofs.P11 proofs.P11b.
 
 (* for every request whose option maps are in ascending order (every BTreeMap state), every budget (0 upward), every
    cached state and every application reply: the entry points return Ok or Err, never Panic *)
@@ -40,6 +40,13 @@ Theorem C11_rejects_jump : forall req M st sz r1 b1,
   handle_block1 req M st = (Err E_INTERNAL, req, st_buf st (Some before)).
 Proof. exact handle_block1_rejects_jump. Qed.
 Print Assumptions C11_rejects_jump.
+
+(* the offsets computed from any decoded block option stay at or below 2^27: the unbounded arithmetic of the model is
+   faithful on every target whose usize has at least 32 bits (no wrap-around can occur in num * size + size) *)
+Theorem C11_offsets_bounded : forall n p b, first_block n p = Some b ->
+  block_size b <= 2048 /\ b_num b * block_size b + block_size b <= 134217728.
+Proof. exact decoded_offsets_bounded. Qed.
+Print Assumptions C11_offsets_bounded.
 
 Example C11_example :
   extending_splice [1; 2] 16400 16416 [9] = None /\ negotiate (Some (mkBlock 0 true 2)) (30 + 30) 30 42 = Err E_INTERNAL.
